@@ -7,11 +7,13 @@ import (
 	"encoding/pem"
 	"fmt"
 	"os"
+	"reflect"
 	"sort"
 	"strings"
 	"time"
 
 	"go.step.sm/crypto/jose"
+	"google.golang.org/protobuf/proto"
 
 	"github.com/smallstep/certificates/authority"
 	"github.com/smallstep/certificates/authority/provisioner"
@@ -28,19 +30,21 @@ import (
 type ConvCase struct {
 	Ty   string
 	Seed uint64
+	Path string `json:",omitempty"` // "" = admin database (linkedca) round trip; "json" = ca.json: Marshal, then provisioner.List.UnmarshalJSON;
+	// "db" = start from the database form: ToLinkedca, ToCertificates, ToLinkedca again, compare the two database forms
 }
 
 var convFields = map[string][]string{
 	"JWK":    {"name", "key"},
 	"X5C":    {"name", "roots"},
 	"SSHPOP": {"name"},
-	"OIDC":   {"name", "clientID", "clientSecret", "configurationEndpoint", "tenantID", "admins", "domains", "groups", "listenAddress"},
+	"OIDC":   {"name", "clientID", "clientSecret", "configurationEndpoint", "tenantID", "admins", "domains", "groups", "listenAddress", "scopes", "authParams"},
 	"K8sSA":  {"name", "publicKeys"},
 	"Nebula": {"name", "roots"},
 	"ACME":   {"name", "forceCN", "requireEAB", "challenges", "attestationFormats"},
 	"SCEP":   {"name", "forceCN", "challenge", "minimumPublicKeyLength"},
 	"AWS":    {"name", "accounts", "disableCustomSANs", "disableTrustOnFirstUse", "instanceAge"},
-	"GCP":    {"name", "serviceAccounts", "projectIDs", "disableCustomSANs", "disableTrustOnFirstUse", "instanceAge"},
+	"GCP":    {"name", "serviceAccounts", "projectIDs", "disableCustomSANs", "disableTrustOnFirstUse", "instanceAge", "disableSSHCAUser", "disableSSHCAHost"},
 	"Azure":  {"name", "tenantID", "resourceGroups", "subscriptionIDs", "objectIDs", "audience", "disableCustomSANs", "disableTrustOnFirstUse"},
 }
 
@@ -138,7 +142,7 @@ func (k *ConvCase) build() provisioner.Interface {
 		return &provisioner.SSHPOP{Type: "SSHPOP", Name: name, Claims: claims}
 	case "OIDC":
 		return &provisioner.OIDC{Type: "OIDC", Name: name, ClientID: word(), ClientSecret: c.Pick(r, []string{"", word()}), ConfigurationEndpoint: "https://" + word() + ".example/",
-			TenantID: c.Pick(r, []string{"", word()}), Admins: words(), Domains: words(), Groups: words(), ListenAddress: c.Pick(r, []string{"", ":10000"}), Claims: claims}
+			TenantID: c.Pick(r, []string{"", word()}), Admins: words(), Domains: words(), Groups: words(), ListenAddress: c.Pick(r, []string{"", ":10000"}), Scopes: words(), AuthParams: words(), Claims: claims}
 	case "K8sSA":
 		der := must(x509.MarshalPKIXPublicKey(newJWK().Public().Key))
 		return &provisioner.K8sSA{Type: "K8sSA", Name: name, PubKeys: pem.EncodeToMemory(&pem.Block{Type: "PUBLIC KEY", Bytes: der}), Claims: claims}
@@ -152,7 +156,14 @@ func (k *ConvCase) build() provisioner.Interface {
 	case "AWS":
 		return &provisioner.AWS{Type: "AWS", Name: name, Accounts: words(), DisableCustomSANs: r.Chance(1, 2), DisableTrustOnFirstUse: r.Chance(1, 2), InstanceAge: dur(), Claims: claims}
 	case "GCP":
-		return &provisioner.GCP{Type: "GCP", Name: name, ServiceAccounts: words(), ProjectIDs: words(), DisableCustomSANs: r.Chance(1, 2), DisableTrustOnFirstUse: r.Chance(1, 2), InstanceAge: dur(), Claims: claims}
+		g := &provisioner.GCP{Type: "GCP", Name: name, ServiceAccounts: words(), ProjectIDs: words(), DisableCustomSANs: r.Chance(1, 2), DisableTrustOnFirstUse: r.Chance(1, 2), InstanceAge: dur(), Claims: claims}
+		if r.Chance(1, 2) {
+			g.DisableSSHCAUser = bptr(r.Chance(1, 2))
+		}
+		if r.Chance(1, 2) {
+			g.DisableSSHCAHost = bptr(r.Chance(1, 2))
+		}
+		return g
 	case "Azure":
 		return &provisioner.Azure{Type: "Azure", Name: name, TenantID: word(), ResourceGroups: words(), SubscriptionIDs: words(), ObjectIDs: words(),
 			Audience: c.Pick(r, []string{"", "https://" + word() + ".audience/"}), DisableCustomSANs: r.Chance(1, 2), DisableTrustOnFirstUse: r.Chance(1, 2), Claims: claims}
@@ -176,13 +187,44 @@ func (k *ConvCase) run() (line, impl string, ok bool) {
 	}
 	js, _ := json.Marshal(k)
 	line = "convert type=" + k.Ty + " exp=" + c.X(want) + " case=x" + hex.EncodeToString(js)
-	lp, err := authority.ProvisionerToLinkedca(p)
-	if err != nil {
-		return line, "conv:error-to-linkedca", true
-	}
-	q, err := authority.ProvisionerToCertificates(lp)
-	if err != nil {
-		return line, "conv:error-to-certificates", true
+	var q provisioner.Interface
+	switch k.Path {
+	case "json":
+		b, err := json.Marshal(provisioner.List{p})
+		if err != nil {
+			return line, "conv:error-marshal", true
+		}
+		var l provisioner.List
+		if err := json.Unmarshal(b, &l); err != nil || len(l) != 1 {
+			return line, "conv:error-unmarshal", true
+		}
+		q = l[0]
+	case "db":
+		lp, err := authority.ProvisionerToLinkedca(p)
+		if err != nil {
+			return line, "conv:error-to-linkedca", true
+		}
+		q1, err := authority.ProvisionerToCertificates(lp)
+		if err != nil {
+			return line, "conv:error-to-certificates", true
+		}
+		lp2, err := authority.ProvisionerToLinkedca(q1)
+		if err != nil {
+			return line, "conv:error-to-linkedca-2", true
+		}
+		if !proto.Equal(lp.Details, lp2.Details) || !proto.Equal(lp.Claims, lp2.Claims) || lp.Name != lp2.Name || lp.Type != lp2.Type {
+			return line, "conv:" + k.Ty + ":database form not stable: " + lp2.String(), true
+		}
+		q = q1
+	default:
+		lp, err := authority.ProvisionerToLinkedca(p)
+		if err != nil {
+			return line, "conv:error-to-linkedca", true
+		}
+		q, err = authority.ProvisionerToCertificates(lp)
+		if err != nil {
+			return line, "conv:error-to-certificates", true
+		}
 	}
 	got, err := project(q, k.Ty)
 	if err != nil {
@@ -215,6 +257,7 @@ func convertStage(o *c.Out, n int, replay string) {
 		}
 		return
 	}
+	goldenStage(o)
 	var tys []string
 	for t := range convFields {
 		tys = append(tys, t)
@@ -222,8 +265,131 @@ func convertStage(o *c.Out, n int, replay string) {
 	sort.Strings(tys)
 	rng := c.NewRng(c.Seed())
 	for i := 0; i < n; i++ {
-		emit(&ConvCase{Ty: tys[i%len(tys)], Seed: rng.U64()})
+		emit(&ConvCase{Ty: tys[i%len(tys)], Seed: rng.U64(), Path: []string{"", "json", "db"}[(i/len(tys))%3]})
 	}
 }
 
 var _ = jose.ES256
+
+// ---- the ca.json spelling of every token-relevant field, written out by hand (field names as in the
+// documentation of step-ca): parsing this text must give the provisioners built next to it in Go.
+
+const goldenKey = `{"use":"sig","kty":"EC","kid":"golden-kid","crv":"P-256","alg":"ES256","x":"7ZdAAMZCFU4XwgblI5RfZouBi8lYmF6DlZusNNnsbm8","y":"sQr2JdzwD2fgyrymBEXWsxDxFNjjqN64qLLSbLdLZ9Y"}`
+
+func goldenCases() []struct {
+	ty   string
+	text string
+	want func() provisioner.Interface
+} {
+	var key jose.JSONWebKey
+	if err := json.Unmarshal([]byte(goldenKey), &key); err != nil {
+		panic(err)
+	}
+	claimsText := `"claims":{"enableSSHCA":true,"disableRenewal":true,"allowRenewalAfterExpiry":true}`
+	claims := func() *provisioner.Claims {
+		return &provisioner.Claims{EnableSSHCA: bptr(true), DisableRenewal: bptr(true), AllowRenewalAfterExpiry: bptr(true)}
+	}
+	pemText := "-----BEGIN CERTIFICATE-----\nMIIBgolden\n-----END CERTIFICATE-----\n"
+	b64 := "LS0tLS1CRUdJTiBDRVJUSUZJQ0FURS0tLS0tCk1JSUJnb2xkZW4KLS0tLS1FTkQgQ0VSVElGSUNBVEUtLS0tLQo="
+	return []struct {
+		ty   string
+		text string
+		want func() provisioner.Interface
+	}{
+		{"JWK", `{"type":"JWK","name":"g-jwk","key":` + goldenKey + `,` + claimsText + `}`,
+			func() provisioner.Interface { return &provisioner.JWK{Type: "JWK", Name: "g-jwk", Key: &key, Claims: claims()} }},
+		{"X5C", `{"type":"X5C","name":"g-x5c","roots":"` + b64 + `",` + claimsText + `}`,
+			func() provisioner.Interface { return &provisioner.X5C{Type: "X5C", Name: "g-x5c", Roots: []byte(pemText), Claims: claims()} }},
+		{"SSHPOP", `{"type":"SSHPOP","name":"g-pop",` + claimsText + `}`,
+			func() provisioner.Interface { return &provisioner.SSHPOP{Type: "SSHPOP", Name: "g-pop", Claims: claims()} }},
+		{"OIDC", `{"type":"OIDC","name":"g-oidc","clientID":"cid","clientSecret":"sec","configurationEndpoint":"https://idp.example/","tenantID":"ten","admins":["a@x"],"domains":["x"],"groups":["g"],"listenAddress":":10000","scopes":["openid"],"authParams":["p=1"],` + claimsText + `}`,
+			func() provisioner.Interface {
+				return &provisioner.OIDC{Type: "OIDC", Name: "g-oidc", ClientID: "cid", ClientSecret: "sec", ConfigurationEndpoint: "https://idp.example/", TenantID: "ten",
+					Admins: []string{"a@x"}, Domains: []string{"x"}, Groups: []string{"g"}, ListenAddress: ":10000", Scopes: []string{"openid"}, AuthParams: []string{"p=1"}, Claims: claims()}
+			}},
+		{"K8sSA", `{"type":"K8sSA","name":"g-k8s","publicKeys":"` + b64 + `",` + claimsText + `}`,
+			func() provisioner.Interface { return &provisioner.K8sSA{Type: "K8sSA", Name: "g-k8s", PubKeys: []byte(pemText), Claims: claims()} }},
+		{"Nebula", `{"type":"Nebula","name":"g-neb","roots":"` + b64 + `",` + claimsText + `}`,
+			func() provisioner.Interface { return &provisioner.Nebula{Type: "Nebula", Name: "g-neb", Roots: []byte(pemText), Claims: claims()} }},
+		{"ACME", `{"type":"ACME","name":"g-acme","forceCN":true,"requireEAB":true,` + claimsText + `}`,
+			func() provisioner.Interface { return &provisioner.ACME{Type: "ACME", Name: "g-acme", ForceCN: true, RequireEAB: true, Claims: claims()} }},
+		{"SCEP", `{"type":"SCEP","name":"g-scep","forceCN":true,"challenge":"pw","minimumPublicKeyLength":3072,` + claimsText + `}`,
+			func() provisioner.Interface {
+				return &provisioner.SCEP{Type: "SCEP", Name: "g-scep", ForceCN: true, ChallengePassword: "pw", MinimumPublicKeyLength: 3072, Claims: claims()}
+			}},
+		{"AWS", `{"type":"AWS","name":"g-aws","accounts":["123"],"disableCustomSANs":true,"disableTrustOnFirstUse":true,"instanceAge":"2h","iidRoots":"/etc/iid.pem",` + claimsText + `}`,
+			func() provisioner.Interface {
+				return &provisioner.AWS{Type: "AWS", Name: "g-aws", Accounts: []string{"123"}, DisableCustomSANs: true, DisableTrustOnFirstUse: true,
+					InstanceAge: provisioner.Duration{Duration: 2 * time.Hour}, IIDRoots: "/etc/iid.pem", Claims: claims()}
+			}},
+		{"GCP", `{"type":"GCP","name":"g-gcp","serviceAccounts":["sa"],"projectIDs":["p"],"disableCustomSANs":true,"disableTrustOnFirstUse":true,"instanceAge":"2h","disableSSHCAUser":false,"disableSSHCAHost":true,` + claimsText + `}`,
+			func() provisioner.Interface {
+				return &provisioner.GCP{Type: "GCP", Name: "g-gcp", ServiceAccounts: []string{"sa"}, ProjectIDs: []string{"p"}, DisableCustomSANs: true, DisableTrustOnFirstUse: true,
+					InstanceAge: provisioner.Duration{Duration: 2 * time.Hour}, DisableSSHCAUser: bptr(false), DisableSSHCAHost: bptr(true), Claims: claims()}
+			}},
+		{"Azure", `{"type":"Azure","name":"g-az","tenantID":"ten","resourceGroups":["rg"],"subscriptionIDs":["sub"],"objectIDs":["oid"],"audience":"https://aud/","disableCustomSANs":true,"disableTrustOnFirstUse":true,` + claimsText + `}`,
+			func() provisioner.Interface {
+				return &provisioner.Azure{Type: "Azure", Name: "g-az", TenantID: "ten", ResourceGroups: []string{"rg"}, SubscriptionIDs: []string{"sub"}, ObjectIDs: []string{"oid"},
+					Audience: "https://aud/", DisableCustomSANs: true, DisableTrustOnFirstUse: true, Claims: claims()}
+			}},
+	}
+}
+
+// goldenStage: the hand-written ca.json text parsed by provisioner.List.UnmarshalJSON against the
+// structs written in Go; compared field by field through Go field names (reflection), so that a
+// renamed or dropped JSON key shows.
+func goldenStage(o *c.Out) {
+	for _, g := range goldenCases() {
+		want := structFields(g.want())
+		var l provisioner.List
+		impl := "conv:" + g.ty + ":"
+		if err := json.Unmarshal([]byte("["+g.text+"]"), &l); err != nil || len(l) != 1 {
+			impl += "error-unmarshal"
+		} else {
+			impl += structFields(l[0])
+		}
+		o.Case("convert type="+g.ty+" exp="+c.X(want)+" golden=1", impl)
+	}
+}
+
+// structFields renders the exported, token-relevant fields of a provisioner by their Go names.
+func structFields(p provisioner.Interface) string {
+	v := reflect.ValueOf(p)
+	for v.Kind() == reflect.Ptr {
+		v = v.Elem()
+	}
+	var parts []string
+	for i := 0; i < v.NumField(); i++ {
+		f := v.Type().Field(i)
+		if !f.IsExported() || f.Name == "Options" || f.Name == "ID" {
+			continue
+		}
+		fv := v.Field(i)
+		var val any = fv.Interface()
+		switch x := val.(type) {
+		case *provisioner.Claims:
+			if x == nil {
+				continue
+			}
+			val = fmt.Sprintf("ssh=%v renew=%v after=%v", x.EnableSSHCA != nil && *x.EnableSSHCA, x.DisableRenewal != nil && *x.DisableRenewal, x.AllowRenewalAfterExpiry != nil && *x.AllowRenewalAfterExpiry)
+		case *bool:
+			if x == nil {
+				continue
+			}
+			val = *x
+		case *jose.JSONWebKey:
+			if x == nil {
+				continue
+			}
+			val = must(jose.Thumbprint(x)) + "/" + x.KeyID
+		case []byte:
+			val = hex.EncodeToString(x)
+		}
+		if fv.IsZero() {
+			continue
+		}
+		parts = append(parts, fmt.Sprintf("%s=%v", f.Name, val))
+	}
+	sort.Strings(parts)
+	return strings.Join(parts, ";")
+}
